@@ -228,6 +228,10 @@ func Run(r *core.Run) {
 	add(scen.EcResharing(2, 1, []int{0, 1}, 2, 1, r.Seed, false), "dev", 0, false)
 	add(scen.EcResharing(2, 1, []int{0, 1}, 2, 1, r.Seed, true), "dev", 0, false)
 	add(scen.EcResharing(3, 1, []int{0, 1, 2}, 2, 1, r.Seed, true), "dev", 0, false) // more old members than new ones
+	// ids at or above the group order in the old key and in the new committee; ids near q
+	add(scen.EcResharingP("above-q", "above-q", 3, 1, []int{0, 2}, 2, 1, r.Seed, true), "dev", 0, false)
+	add(scen.EdResharingP("above-q", "above-q", 3, 1, []int{0, 2}, 2, 1, r.Seed), "dev", 1, false)
+	add(scen.EdResharingP("near-q", "byte-boundary", 3, 1, []int{1, 2}, 3, 1, r.Seed), "dev", 0, false)
 	if r.Tier == "thorough" {
 		add(scen.EcResharing(2, 1, []int{0, 1}, 2, 1, r.Seed, false), "dev", 1, true)
 		add(scen.EcResharing(3, 1, []int{0, 2}, 3, 2, r.Seed, false), "dev", 0, true)
